@@ -1850,6 +1850,181 @@ fn per_struct<T: Fam>(ctx: &mut Ctx, out: &mut Out, rng: &mut Rng, th: bool) {
     }
 }
 
+
+// ------------------------------------------------------------------------------------------
+// template values published through a `MetricToken<T>` of a REAL node: `create_publish_template_metric`
+// and `create_publish_template_metric_from_difference` (srad-eon/src/metric.rs), NBIRTH -> NDATA ->
+// prost bytes -> `topic_and_payload_to_event` -> `TemplateInstance::try_from` -> rebuild / patch.
+// No model line: direct oracles over what the client was handed (C17 laws at the receiving end,
+// C11 "published through a token = identified as the latest birth declared").
+// ------------------------------------------------------------------------------------------
+struct TokMgr<T: Fam>(std::sync::Arc<std::sync::Mutex<Option<srad_eon::MetricToken<T>>>>, T, bool);
+impl<T: Fam + Send + Sync> srad_eon::MetricManager for TokMgr<T> {
+    fn initialise_birth(&self, bi: &mut srad_eon::BirthInitializer) {
+        let d = srad_eon::BirthMetricDetails::new_template_metric("t", self.1.clone()).use_alias(self.2);
+        *self.0.lock().unwrap() = bi.register_template_metric(d).ok();
+    }
+}
+impl<T: Fam + Send + Sync> srad_eon::NodeMetricManager for TokMgr<T> {}
+
+/// the metric `t` of a payload that went through the wire: (alias, name, decoded template instance)
+fn wire_metric(call: &crate::mock::Call) -> Option<(Option<u64>, Option<String>, Result<TemplateInstance, String>)> {
+    use prost::Message as _;
+    let bytes = call.payload.as_ref()?.encode_to_vec();
+    let ev = srad_client::topic_and_payload_to_event(call.topic.clone().into_bytes(), bytes.into());
+    let payload = match ev {
+        srad_client::Event::Node(node_message) => node_message.message.payload,
+        _ => return None,
+    };
+    let m = payload.metrics.into_iter().find(|m| {
+        m.datatype == Some(payload::DataType::Template as u32) && m.value.as_ref().map(|v| matches!(v, metric::Value::TemplateValue(t) if t.is_definition != Some(true))).unwrap_or(false)
+            || (m.datatype.is_none() && matches!(m.value, Some(metric::Value::TemplateValue(_))))
+    })?;
+    let inst = match m.value.clone() {
+        Some(v) => TemplateInstance::try_from(srad_types::MetricValue::from(v)).map_err(|_| "not an instance".to_string()),
+        None => Err("no value".into()),
+    };
+    Some((m.alias, m.name.clone(), inst))
+}
+
+fn token_case<T: Fam + Send + Sync + PartialEq + std::fmt::Debug>(_ctx: &mut Ctx, out: &mut Out, rng: &mut Rng, _th: bool) {
+    use crate::mock::{mock_pair, runtime, set_clocks, settle, Kind};
+    use srad_eon::MetricPublisher;
+    for round in 0..3 {
+        let a = T::gen(rng, false);
+        let b = match round {
+            0 => a.clone(),
+            1 => T::gen(rng, false),
+            _ => a.mix(&T::gen(rng, false), rng),
+        };
+        let alias = rng.chance(1, 2);
+        let feature = format!("{}:{}", T::ID, if alias { "alias" } else { "name" });
+        let slot = std::sync::Arc::new(std::sync::Mutex::new(None));
+        let rt = runtime();
+        let (hub, client, el, feeder) = mock_pair();
+        let mgr = TokMgr::<T>(slot.clone(), a.clone(), alias);
+        let built = catch(std::panic::AssertUnwindSafe(|| {
+            let _in_rt = rt.enter();
+            srad_eon::EoNBuilder::new(el, client)
+                .with_group_id("g")
+                .with_node_id("n")
+                .register_template::<Scalars>()
+                .register_template::<Opts>()
+                .register_template::<Params>()
+                .register_template::<Renamed>()
+                .register_template::<Defaults>()
+                .register_template::<Leaf>()
+                .register_template::<Mid>()
+                .register_template::<Top>()
+                .register_template::<Single>()
+                .register_template::<OnlyParams>()
+                .register_template::<Floats>()
+                .register_template::<NestDefault>()
+                .register_template::<Tiny>()
+                .register_template::<TinyOuter>()
+                .with_metric_manager(mgr)
+                .build()
+        }));
+        let (eon, node) = match built {
+            Ok(Ok(x)) => x,
+            other => {
+                out.fail("C17:published-instance-rebuilds", &format!("{}:family-does-not-register", T::ID), format!("{:?}", other.map(|r| r.map(|_| ()))));
+                return;
+            }
+        };
+        let desc = format!("token-e2e {} a={} b={}", T::ID, cells_tok(&a.cells()), cells_tok(&b.cells()));
+        begin::<T>(_ctx, out);
+        out.set_desc(desc.clone());
+        let (a2, b2, slot2) = (a.clone(), b.clone(), slot.clone());
+        let node2 = node.clone();
+        let res: Result<(bool, bool), String> = rt.block_on(async move {
+            set_clocks(1_000_000);
+            tokio::spawn(async move { eon.run().await });
+            feeder.push(srad_client::Event::Online);
+            settle().await;
+            let tok = slot2.lock().unwrap().take().ok_or("the template metric did not register in the birth")?;
+            let full = tok.create_publish_template_metric(b2.clone());
+            node2.publish_metric(full).await.map_err(|e| format!("publish of the full instance failed: {:?}", e))?;
+            settle().await;
+            let diff = tok.create_publish_template_metric_from_difference(b2.clone(), &a2);
+            let had_diff = diff.is_some();
+            let mut published_diff = false;
+            if let Some(d) = diff {
+                node2.try_publish_metrics(vec![d]).await.map_err(|e| format!("publish of the difference failed: {:?}", e))?;
+                published_diff = true;
+                settle().await;
+            }
+            node2.cancel().await;
+            Ok((had_diff, published_diff))
+        });
+        drop(rt);
+        let calls = hub.calls();
+        let births: Vec<_> = calls.iter().filter(|c| c.kind == Kind::NBirth).collect();
+        let datas: Vec<_> = calls.iter().filter(|c| c.kind == Kind::NData).collect();
+        let here = |m: &str| format!("{}: {}", desc, m);
+        match res {
+            Err(e) => out.fail("C17:published-instance-rebuilds", &feature, here(&e)),
+            Ok((had_diff, _)) => {
+                // the birth declares metric `t`
+                let declared = births.first().and_then(|c| wire_metric(c));
+                let (decl_alias, decl_inst) = match &declared {
+                    Some((al, Some(n), inst)) if n == "t" => (*al, inst),
+                    _ => {
+                        out.fail("C11:token-identifies-birth-metric", &feature, here("the NBIRTH does not declare the template metric `t`"));
+                        continue;
+                    }
+                };
+                if alias != decl_alias.is_some() {
+                    out.fail("C11:token-identifies-birth-metric", &feature, here(&format!("use_alias({}) but the birth declares alias {:?}", alias, decl_alias)));
+                }
+                match decl_inst {
+                    Ok(i) if *i == a.template_instance() => {}
+                    other => out.fail("C17:published-instance-rebuilds", &format!("{}:birth", feature), here(&format!("the birth carries {:?}, not the instance of the initial value", other))),
+                }
+                // the full publish: identified as declared, rebuilds to b
+                match datas.first().and_then(|c| wire_metric(c)) {
+                    None => out.fail("C17:published-instance-rebuilds", &feature, here("no NDATA with a template instance was handed over")),
+                    Some((al, name, inst)) => {
+                        let id_ok = if alias { al == decl_alias && name.is_none() } else { al.is_none() && name.as_deref() == Some("t") };
+                        if !id_ok {
+                            out.fail("C11:token-identifies-birth-metric", &feature, here(&format!("published as alias {:?} / name {:?}, declared alias {:?}", al, name, decl_alias)));
+                        }
+                        match inst {
+                            Ok(i) => match T::try_from(i) {
+                                Ok(r) if r.template_instance() == b.template_instance() => {}
+                                Ok(r) => out.fail("C17:published-instance-rebuilds", &feature, here(&format!("rebuilt {:?}", r.cells()))),
+                                Err(_) => out.fail("C17:published-instance-rebuilds", &feature, here("the received instance does not rebuild")),
+                            },
+                            Err(e) => out.fail("C17:published-instance-rebuilds", &feature, here(&e)),
+                        }
+                    }
+                }
+                // the difference: absent iff a and b agree on all template fields; applied to a gives b
+                let agree = a.template_instance() == b.template_instance();
+                if had_diff == agree {
+                    out.fail("C17:difference-absent-iff-agree", &feature, here(&format!("difference present: {}, values agree: {}", had_diff, agree)));
+                }
+                if had_diff {
+                    match datas.get(1).and_then(|c| wire_metric(c)) {
+                        None => out.fail("C17:published-difference-patches", &feature, here("no second NDATA with a template instance")),
+                        Some((_, _, Err(e))) => out.fail("C17:published-difference-patches", &feature, here(&e)),
+                        Some((_, _, Ok(i))) => {
+                            let mut t = a.clone();
+                            match t.update_from_instance(i) {
+                                Ok(()) if t.template_instance() == b.template_instance() => {}
+                                Ok(()) => out.fail("C17:published-difference-patches", &feature, here(&format!("patched to {:?}", t.cells()))),
+                                Err(_) => out.fail("C17:published-difference-patches", &feature, here("the received difference is refused")),
+                            }
+                        }
+                    }
+                }
+            }
+        }
+        out.nontrivial();
+        out.count("token-e2e");
+    }
+}
+
 pub const RULE: &str = "family of 14 derived structs (all 12 scalar metric types; optional metrics; parameters incl. optional and DateTime; renamed/skipped/defaulted fields incl. names that collide with hidden identifiers, empty and non-ASCII names; parameters only; a single field; overridden definition metric name; nested templates to depth 2, nested default expression, skipped nested field), each paired with its schema literal (pairing checked: the real template_definition() must equal the model's). Per struct: random pairs (equal / independent / field-wise mixed; one in four with NaN allowed) through instance, round trip, difference and patch in both directions; valid instances (full or difference) with 0-2 structural mutations (drop/duplicate/reorder, absent names, every value variant, datatype noise, nested markers) and in 3/5 of the cases one foreign mutation (other reference, other version, unknown metric/parameter, also inside nested instances); instances assembled from scratch; a single-mutation matrix (every position x every mutation kind x every value variant). Exhaustive: all 12 values of Tiny and all 36 of TinyOuter in all ordered pairs; all 256 values of Single round-tripped and all pairs of 16 of them. Non-trivial = the pair differs or the instance was mutated/assembled; distinct = distinct op lines (hashed).";
 
 pub fn run(args: &Args, out: &mut Out) -> &'static str {
@@ -1881,6 +2056,11 @@ pub fn run(args: &Args, out: &mut Out) -> &'static str {
     for id in FAMILY {
         let mut r = rng.fork();
         dispatch!(id, per_struct, &mut ctx, out, &mut r, th);
+    }
+    // template values through a real node's MetricToken and the wire
+    for id in FAMILY {
+        let mut r = rng.fork();
+        dispatch!(id, token_case, &mut ctx, out, &mut r, th);
     }
     out.exhaustive.push("per struct: every position of the full instance x {drop, absent name, 6 unknown names, 12 metric / 8 parameter value variants, duplicate}, 5 foreign references, 7 foreign versions".into());
     RULE
